@@ -197,7 +197,7 @@ import copy as _copy
 import io as _io
 
 
-def _v17(arg, shared, static, compdb, val):
+def _v17(arg, shared, static, compdb, val, noinit=False):
     return {
         'bfgdir': ['/bfgdir/', 'absolute', False], 'backend': 'make', 'backend_version': '4.3',
         'host_platform': {'genus': 'linux', 'species': 'linux', 'arch': 'x86_64'},
@@ -210,7 +210,7 @@ def _v17(arg, shared, static, compdb, val):
             'mandir': ['man/', 'datadir', False]},
         'toolchain': {'path': None}, 'mopack': [], 'library_mode': [shared, static],
         'compdb': compdb, 'extra_args': [arg],
-        'variables': {'initial': {'CC': 'gcc'}, 'current': {'CC': val}},
+        'variables': {'initial': {} if noinit else {'CC': 'gcc'}, 'current': {'CC': val}},
     }
 
 
@@ -270,7 +270,8 @@ class _FakeJson:
         return self.state
 
 
-def g_upgrade(v: int, arg: str, shared: bool, static: bool, compdb: bool, val: str) -> bool:
+def g_upgrade(v: int, arg: str, shared: bool, static: bool, compdb: bool, val: str,
+              noinit: bool = False) -> bool:
     """a snapshot written by any older format version (4..17) loads to the configuration it
     recorded: every setting that version stored is kept (project arguments since 8, library mode
     since 9, compdb switch since 16, initial variables since 13, paths and install directories
@@ -278,7 +279,8 @@ def g_upgrade(v: int, arg: str, shared: bool, static: bool, compdb: bool, val: s
     pre: 4 <= v <= 17 and len(arg) <= VL and len(val) <= VL
     post: _
     """
-    full = _v17(arg, shared, static, compdb, val)
+    # noinit: the configuration was made with an empty initial environment (env -i)
+    full = _v17(arg, shared, static, compdb, val, noinit)
     state = {'version': v, 'data': _downgrade(full, v)}
     old_open = getattr(benv, 'open', None)
     old_json = benv.json
@@ -297,7 +299,7 @@ def g_upgrade(v: int, arg: str, shared: bool, static: bool, compdb: bool, val: s
     ok = ok and tuple(env.library_mode) == ((shared, static) if v >= 9 else (True, False))
     ok = ok and env.compdb == (compdb if v >= 16 else True)
     ok = ok and dict(env.variables) == {'CC': val}
-    ok = ok and env.variables.initial == ({'CC': 'gcc'} if v >= 13 else {'CC': val})
+    ok = ok and env.variables.initial == (({} if noinit else {'CC': 'gcc'}) if v >= 13 else {'CC': val})
     ok = ok and env.srcdir.suffix == '/src dir' and env.builddir.suffix == '/build' and \
         env.bfgdir.suffix == '/bfgdir' and env.srcdir.root == Root.absolute
     dirs = env.install_dirs
